@@ -217,8 +217,11 @@ func writeStructFieldUnmarshaller(name string, typ FieldType, w *iohelp.ErrorWri
 		writeLineWithTabs(w, "for "+iName+" := uint32(0); "+iName+" < "+lnName+"; "+iName+"++ {", depth, name)
 		ln := getLineWithTabs(settings.typeUnmarshallers[typ.Map.Key], depth+1, "&"+depthName("k", depth))
 		w.SafeWrite([]byte(strings.Replace(ln, "=", ":=", 1)))
-		name = "&(" + name[1:] + "[" + depthName("k", depth) + "])"
-		writeStructFieldUnmarshaller(name, typ.Map.Value, w, settings, depth+1)
+		// decoded into a local and stored once (see writeFieldReadByter)
+		vName := depthName("mv", depth)
+		writeLineWithTabs(w, "var "+vName+" %TYPE", depth+1, name, typ.Map.Value.goString(settings))
+		writeStructFieldUnmarshaller("&"+vName, typ.Map.Value, w, settings, depth+1)
+		writeLineWithTabs(w, "(%RECV)["+depthName("k", depth)+"] = "+vName, depth+1, name)
 		writeLineWithTabs(w, "}", depth)
 	} else {
 		simpleTyp := typ.Simple
